@@ -28,7 +28,15 @@ impl<'g> AnyDriver<'g> {
         let (tx, rx) = sig_channel(rs);
         let sh = RunState::new(n, rs, tx);
         if rs.api.is_stream() {
-            let s = start_stream(rs, g, rx);
+            let s = match std::panic::catch_unwind(std::panic::AssertUnwindSafe(|| start_stream(rs, g, rx))) {
+                Ok(s) => s,
+                Err(p) => {
+                    sh.borrow_mut().log.push(Ev::Panic);
+                    let mut d = StreamDriver::new(Box::pin(futures::stream::empty()), sh.clone(), rs, tape);
+                    d.term = Some(Term::Panicked(format!("creating the stream: {}", crate::director::panic_msg(p))));
+                    return (AnyDriver::Stream(d), sh);
+                }
+            };
             (AnyDriver::Stream(StreamDriver::new(s, sh.clone(), rs, tape)), sh)
         } else {
             let f = start_call(rs, GraphRef::Shared(g), &sh, rx);
@@ -76,7 +84,15 @@ pub fn run_case_abort(g: &mut FnGraph<TFn>, rs: &RunSpec, tape: &mut Tape, abort
     }
     let mut tr = {
         let mut d = if rs.api.is_stream() {
-            AnyDriver::Stream(StreamDriver::new(start_stream(rs, &*g, rx), sh.clone(), rs, tape))
+            match std::panic::catch_unwind(std::panic::AssertUnwindSafe(|| start_stream(rs, &*g, rx))) {
+                Ok(s) => AnyDriver::Stream(StreamDriver::new(s, sh.clone(), rs, tape)),
+                Err(p) => {
+                    sh.borrow_mut().log.push(Ev::Panic);
+                    let mut d = StreamDriver::new(Box::pin(futures::stream::empty()), sh.clone(), rs, tape);
+                    d.term = Some(Term::Panicked(format!("creating the stream: {}", crate::director::panic_msg(p))));
+                    AnyDriver::Stream(d)
+                }
+            }
         } else {
             let gr = if is_mut { GraphRef::Mut(&mut *g) } else { GraphRef::Shared(&*g) };
             AnyDriver::Call(CallDriver::new(start_call(rs, gr, &sh, rx), sh.clone(), rs, n, tape))
